@@ -64,6 +64,17 @@ def case_for(mod, seed: int, tier: str, index: int) -> dict:
     return case
 
 
+def die_with_parent() -> None:
+    """Linux: deliver SIGKILL to this process when its parent dies, so that a
+    helper process hung in native code can never outlive the check (and keep
+    an inherited pipe open)."""
+    try:
+        import ctypes
+        ctypes.CDLL("libc.so.6", use_errno=True).prctl(1, signal.SIGKILL)
+    except Exception:  # pylint: disable=broad-except
+        pass
+
+
 def limit_memory() -> None:
     """Cap the data segment of a worker: code under test that materialises an
     unbounded stream gets a MemoryError (an attributable outcome of the case)
@@ -114,6 +125,7 @@ def _worker(mod_id: str, seed: int, tier: str, w: int, nw: int, deadline: float,
             max_cases: int, case_timeout: float, out_path: str,
             start: int = 0) -> None:
     faulthandler.enable()
+    die_with_parent()
     limit_memory()
     mod = load_prop(mod_id)
     agg = new_agg()
@@ -240,26 +252,28 @@ def match_known(prop: str, vio: dict, known: list[dict]):
 def isolated_run_one(mod, case: dict, timeout: float) -> dict:
     """run_one in a forked child (the parent of a check must survive code
     under test that hangs in native code or eats memory)."""
-    r, w = os.pipe()
+    # (result through a file: a pipe could be kept open by a grandchild hung
+    # in native code, and a large result would fill it)
+    res_path = f"/dev/shm/verif-iso-{os.getpid()}-{time.time_ns()}.json"
     rstate = random.getstate()
     pid = os.fork()
     if pid == 0:
         code = 0
         try:
-            os.close(r)
+            die_with_parent()
             random.setstate(rstate)
             limit_memory()
             res = run_one(mod, case, timeout)
             keep = {k: res.get(k) for k in ("ok", "vclass", "detail", "key",
                                            "digest", "harness_error")}
             keep["case"] = case  # (run_case may add recorded choices)
-            with os.fdopen(w, "w", encoding="utf-8") as f:
+            with open(res_path + ".tmp", "w", encoding="utf-8") as f:
                 json.dump(keep, f, default=str)
+            os.replace(res_path + ".tmp", res_path)
         except BaseException:  # pylint: disable=broad-except
             code = 3
         finally:
             os._exit(code)
-    os.close(w)
     t0 = time.time()
     while True:
         got, _ = os.waitpid(pid, os.WNOHANG)
@@ -268,14 +282,17 @@ def isolated_run_one(mod, case: dict, timeout: float) -> dict:
         if time.time() - t0 > timeout + 3 or rss_of_tree(pid) > 6 * 2**30:
             kill_tree(pid)
             os.waitpid(pid, 0)
-            os.close(r)
+            for p_ in (res_path, res_path + ".tmp"):
+                if os.path.exists(p_):
+                    os.unlink(p_)
             return {"ok": True, "harness_error": "isolated run killed "
                     "(time or memory)"}
         time.sleep(0.02)
-    with os.fdopen(r, encoding="utf-8") as f:
-        data = f.read()
-    if not data:
+    if not os.path.exists(res_path):
         return {"ok": True, "harness_error": "isolated run died"}
+    with open(res_path, encoding="utf-8") as f:
+        data = f.read()
+    os.unlink(res_path)
     res = json.loads(data)
     case.clear()
     case.update(res.pop("case"))
@@ -401,9 +418,10 @@ def rerun_sandboxed(mod_id: str, case_path: str, timeout: float,
                     mem_limit: float) -> dict:
     cmd = [sys.executable, os.path.join(VERIF, "simlib", "main.py"),
            "runcase", mod_id, case_path]
-    proc = subprocess.Popen(cmd, stdout=subprocess.PIPE,
-                            stderr=subprocess.DEVNULL, text=True,
-                            start_new_session=True)
+    out_path = f"/dev/shm/verif-rerun-{os.getpid()}-{time.time_ns()}.txt"
+    out_f = open(out_path, "w", encoding="utf-8")  # pylint: disable=consider-using-with
+    proc = subprocess.Popen(cmd, stdout=out_f, stderr=subprocess.DEVNULL,
+                            text=True, start_new_session=True)
     t0 = time.time()
     failure = None
     while proc.poll() is None:
@@ -413,10 +431,19 @@ def rerun_sandboxed(mod_id: str, case_path: str, timeout: float,
             failure = (f"resident memory above {mem_limit / 2**30:.0f} GiB")
         if failure:
             kill_tree(proc.pid)
+            try:
+                os.killpg(proc.pid, signal.SIGKILL)
+            except OSError:
+                pass
             proc.wait()
+            out_f.close()
+            os.unlink(out_path)
             return {"sandbox_failure": failure}
         time.sleep(0.25)
-    out = proc.stdout.read()
+    out_f.close()
+    with open(out_path, encoding="utf-8") as f:
+        out = f.read()
+    os.unlink(out_path)
     for line in out.splitlines():
         if line.startswith("RUNCASE_JSON "):
             return json.loads(line[13:])
